@@ -1169,6 +1169,45 @@ func (a *smAn) call(call *ast.CallExpr, s *pst) {
 			}
 		}
 	}
+	// an encoder of the module that writes into a builder it is handed: enc(&buffer, r, set)
+	if callee.Pkg() == a.pkg.Types {
+		sig := callee.Type().(*types.Signature)
+		bi, si, ri := -1, -1, -1
+		for i := 0; i < sig.Params().Len() && i < len(call.Args); i++ {
+			pt := sig.Params().At(i).Type()
+			switch {
+			case pt.String() == "*strings.Builder":
+				bi = i
+			case namedOf(pt) == "PercentEncodeSet":
+				si = i
+			case types.Identical(pt, types.Typ[types.Rune]) || types.Identical(pt, types.Typ[types.Byte]):
+				ri = i
+			}
+		}
+		if bi >= 0 && si >= 0 && ri >= 0 {
+			arg := ast.Unparen(call.Args[bi])
+			if u, ok := arg.(*ast.UnaryExpr); ok && u.Op == token.AND {
+				arg = ast.Unparen(u.X)
+			}
+			if id, ok := arg.(*ast.Ident); ok {
+				if o := a.obj(id); o != nil && (o.Type().String() == "strings.Builder" || o.Type().String() == "*strings.Builder") {
+					s.bufState[id.Name] = "nonempty"
+					w := bufWrite{Buffer: id.Name, Class: "other", Pos: call.Pos(), Special: triU}
+					w.Class, w.Set = "encoded", a.resolveSet(call.Args[si], s)
+					for k, v := range s.facts {
+						if strings.Contains(k, "pecialScheme(") {
+							if v {
+								w.Special = triT
+							} else {
+								w.Special = triF
+							}
+						}
+					}
+					s.path.BufWrites = append(s.path.BufWrites, w)
+				}
+			}
+		}
+	}
 	// handler calls are recorded where their result is bound (assign); a bare call is recorded untested
 	if fnv := a.ssaOf(callee); fnv != nil {
 		if h := a.em.Handlers[fnv]; h != nil {
